@@ -147,4 +147,203 @@ example : bindingSpec (.explicit 'R' "33" (some "32") false) = none := by decide
 example : bindingSpec (.letter 'P' "ss" false) = none := by decide
 example : (readProbe (.letter 'P' "t" true) (default : Binding)).2 = "{ int64_t v = ((uint0_t)PtN); }" := by decide
 
+/-! ## explicit register PAIRS (`R1:0`, `C9:8_NEW`, …) and operand-variable injectivity over all explicit spellings -/
+
+/-- Explicit pairs, for ANY class character and digit strings (not only the 16384 enumerated ones): a defined pair spelling
+    is architectural (`high = low + 1`, `low` even, `high ≤ classMax`), twice the class width and signed, asks the plugin
+    for `EXPLICIT2OP(low, <64-bit class>, new)` with the `.new` flag of the spelling, and is held in
+    `<cls><high>_<low>[_new]_op`. -/
+theorem explicit_pair_binding_any (c : Char) (d q : String) (nw : Bool) (b : Binding)
+    (h : bindingSpec (.explicit c d (some q) nw) = some b) :
+    ∃ hi lo w cn, natOfDigits d = some hi ∧ natOfDigits q = some lo ∧ classWidth c = some w ∧ className c true = some cn ∧
+      hi = lo + 1 ∧ lo % 2 = 0 ∧ hi ≤ classMax c ∧
+      b.ty = ⟨true, 2 * w⟩ ∧
+      b.slot = .app "EXPLICIT2OP" [.num lo, .id cn, boolT nw] ∧
+      slotNewFlag b = some nw ∧
+      b.opvar = String.singleton c ++ d ++ "_" ++ q ++ (if nw then "_new" else "") ++ "_op" ∧
+      b.kind = (if nw then .explicitNew else .explicit) ∧ b.declTy = "const HexOp" := by
+  simp only [bindingSpec, Option.isSome_some, Option.bind_eq_bind, Option.bind_eq_some_iff] at h
+  obtain ⟨w, hw, hi, hhi, cn, hcn, h⟩ := h
+  split at h
+  · cases h
+  · cases hlo : natOfDigits q with
+    | none => rw [hlo] at h; cases h
+    | some lo =>
+      rw [hlo] at h
+      simp only [Option.bind_some, Option.ite_none_left_eq_some, Option.some.injEq] at h
+      obtain ⟨hc, h⟩ := h
+      subst h
+      simp only [Bool.or_eq_true, bne_iff_ne, ne_eq, decide_eq_true_eq, not_or, Decidable.not_not, Nat.not_lt] at hc
+      refine ⟨hi, lo, w, cn, hhi, rfl, hw, hcn, hc.1.1, hc.1.2, hc.2, rfl, rfl, ?_, rfl, rfl, rfl⟩
+      cases nw <;> rfl
+
+theorem mem_explicitPairs_shape {sp : Spelling} (h : sp ∈ explicitPairs) :
+    ∃ c d q nw, c ∈ explicitClasses ∧ d ∈ explicitDigits ∧ q ∈ explicitDigits ∧ sp = .explicit c d (some q) nw := by
+  simp only [explicitPairs, List.mem_flatMap, List.mem_cons, List.not_mem_nil, or_false] at h
+  obtain ⟨c, hc, d, hd, q, hq, h | h⟩ := h
+  · exact ⟨c, d, q, false, hc, hd, hq, h⟩
+  · exact ⟨c, d, q, true, hc, hd, hq, h⟩
+
+/-- The table form over the 16384 enumerated pair spellings. -/
+theorem explicit_pair_binding :
+    ∀ sp ∈ explicitPairs, ∀ b, bindingSpec sp = some b →
+      ∃ c d q nw hi lo w cn, sp = .explicit c d (some q) nw ∧
+        natOfDigits d = some hi ∧ natOfDigits q = some lo ∧ classWidth c = some w ∧ className c true = some cn ∧
+        hi = lo + 1 ∧ lo % 2 = 0 ∧ hi ≤ classMax c ∧
+        b.ty.signed = true ∧ b.ty.width = 2 * w ∧
+        b.slot = .app "EXPLICIT2OP" [.num lo, .id cn, boolT nw] ∧
+        slotNewFlag b = some sp.isNew ∧
+        b.opvar = String.singleton c ++ d ++ "_" ++ q ++ (if nw then "_new" else "") ++ "_op" := by
+  intro sp hsp b hb
+  obtain ⟨c, d, q, nw, -, -, -, rfl⟩ := mem_explicitPairs_shape hsp
+  obtain ⟨hi, lo, w, cn, h1, h2, h3, h4, h5, h6, h7, h8, h9, h10, h11, -, -⟩ := explicit_pair_binding_any c d q nw b hb
+  exact ⟨c, d, q, nw, hi, lo, w, cn, rfl, h1, h2, h3, h4, h5, h6, h7, by rw [h8], by rw [h8], h9, h10, h11⟩
+
+/-- Converse, for any class that HAS pairs (`className c true = some _`: R, C, G, S): an architectural pair spelling
+    is defined. -/
+theorem explicit_pair_defined (c : Char) (d q : String) (nw : Bool) (lo : Nat) (cn : String)
+    (hq : natOfDigits q = some lo) (hd : natOfDigits d = some (lo + 1)) (he : lo % 2 = 0) (hm : lo + 1 ≤ classMax c)
+    (hc : className c true = some cn) : bindingSpec (.explicit c d (some q) nw) ≠ none := by
+  have hw : classWidth c = some 32 ∧ (c == 'N') = false := by
+    unfold className at hc
+    split at hc
+    · rename_i h; rw [beq_iff_eq] at h; subst h; decide
+    split at hc
+    · cases hc
+    split at hc
+    · rename_i h; rw [beq_iff_eq] at h; subst h; decide
+    split at hc
+    · cases hc
+    split at hc
+    · rename_i h; rw [beq_iff_eq] at h; subst h; decide
+    split at hc
+    · rename_i h; rw [beq_iff_eq] at h; subst h; decide
+    · cases hc
+  simp [bindingSpec, hw.1, hw.2, hq, hd, he, hc]
+  omega
+
+def archPair : Spelling → Bool
+  | .explicit c d (some q) _ =>
+      (className c true).isSome &&
+      (match natOfDigits d, natOfDigits q with
+       | some hi, some lo => hi == lo + 1 && lo % 2 == 0 && decide (hi ≤ classMax c)
+       | _, _ => false)
+  | _ => false
+
+theorem explicit_pair_defined_table : explicitPairs.all (fun sp => (bindingSpec sp).isSome == archPair sp) = true := by
+  decide +kernel
+
+/-- Over the enumerated pair spellings: defined exactly when architectural for a class that has pairs. -/
+theorem explicit_pair_defined_iff : ∀ sp ∈ explicitPairs, (bindingSpec sp).isSome = archPair sp := by
+  intro sp h
+  have := List.all_eq_true.mp explicit_pair_defined_table sp h
+  exact beq_iff_eq.mp this
+
+/-- Size of the architectural pair space inside the 16384 spellings: 4 classes (R, C, G, S) × 16 pairs × {plain, `_NEW`}. -/
+theorem explicit_pair_defined_count :
+    explicitPairs.length = 16384 ∧ (explicitPairs.filter (fun s => (bindingSpec s).isSome)).length = 128 := by
+  decide +kernel
+
+def splitUnderscore : List Char → List Char → List (List Char)
+  | [], cur => [cur.reverse]
+  | c :: cs, cur => if c == '_' then cur.reverse :: splitUnderscore cs [] else splitUnderscore cs (c :: cur)
+
+/-- Reads the spelling back from an operand variable: `<cls><digits>[_<digits>][_new]_op` is an explicit register (pair),
+    `<cls><letters>[_new]_op` a letter operand. -/
+def decodeOpvar (v : String) : Option Spelling :=
+  match v.toList with
+  | [] => none
+  | c :: rest =>
+    match splitUnderscore rest [] with
+    | [a, ['o', 'p']] =>
+        some (if a.all Char.isDigit then .explicit c (String.ofList a) none false else .letter c (String.ofList a) false)
+    | [a, ['n', 'e', 'w'], ['o', 'p']] =>
+        some (if a.all Char.isDigit then .explicit c (String.ofList a) none true else .letter c (String.ofList a) true)
+    | [a, q, ['o', 'p']] => some (.explicit c (String.ofList a) (some (String.ofList q)) false)
+    | [a, q, ['n', 'e', 'w'], ['o', 'p']] => some (.explicit c (String.ofList a) (some (String.ofList q)) true)
+    | _ => none
+
+def decodesOK (sp : Spelling) : Bool :=
+  match bindingSpec sp with
+  | some b => decodeOpvar b.opvar == some sp
+  | none => true
+
+theorem opvar_decodes_table : (letterSpellings ++ explicitSingles).all decodesOK = true := by
+  decide +kernel
+
+theorem opvar_decodes_pairs_table : explicitPairs.all decodesOK = true := by
+  decide +kernel
+
+/-- The operand variable determines the spelling: ONE decoder reads every defined letter, explicit-single and
+    explicit-pair spelling back from its operand variable. -/
+theorem opvar_decodes :
+    ∀ sp ∈ letterSpellings ++ explicitSingles ++ explicitPairs, ∀ b, bindingSpec sp = some b →
+      decodeOpvar b.opvar = some sp := by
+  intro sp h b hb
+  have hok : decodesOK sp = true := by
+    rcases List.mem_append.mp h with h | h
+    · exact List.all_eq_true.mp opvar_decodes_table sp h
+    · exact List.all_eq_true.mp opvar_decodes_pairs_table sp h
+  simp only [decodesOK, hb] at hok
+  exact beq_iff_eq.mp hok
+
+/-- Two different defined spellings among ALL letter, explicit-single and explicit-pair spellings never share an operand
+    variable (extends `opvar_injective` from the 272 letter spellings to the 17168 spellings). -/
+theorem opvar_injective_explicit (sp1 sp2 : Spelling)
+    (h1 : sp1 ∈ letterSpellings ++ explicitSingles ++ explicitPairs) (h2 : sp2 ∈ letterSpellings ++ explicitSingles ++ explicitPairs)
+    (b1 b2 : Binding) (e1 : bindingSpec sp1 = some b1) (e2 : bindingSpec sp2 = some b2) (ho : b1.opvar = b2.opvar) :
+    sp1 = sp2 := by
+  have d1 := opvar_decodes sp1 h1 b1 e1
+  have d2 := opvar_decodes sp2 h2 b2 e2
+  rw [ho, d2] at d1
+  exact (Option.some.inj d1).symm
+
+def Spelling.isExplicit : Spelling → Bool
+  | .explicit .. => true
+  | _ => false
+
+theorem letterSpellings_not_explicit : letterSpellings.all (fun s => !s.isExplicit) = true := by
+  decide +kernel
+
+theorem mem_explicitSingles_isExplicit {sp : Spelling} (h : sp ∈ explicitSingles) : sp.isExplicit = true := by
+  simp only [explicitSingles, List.mem_flatMap, List.mem_cons, List.not_mem_nil, or_false] at h
+  obtain ⟨c, -, d, -, h | h⟩ := h <;> subst h <;> rfl
+
+/-- No explicit spelling (single or pair) shares its operand variable with a letter spelling. -/
+theorem explicit_opvar_not_letter (sp1 sp2 : Spelling) (h1 : sp1 ∈ explicitSingles ++ explicitPairs) (h2 : sp2 ∈ letterSpellings)
+    (b1 b2 : Binding) (e1 : bindingSpec sp1 = some b1) (e2 : bindingSpec sp2 = some b2) : b1.opvar ≠ b2.opvar := by
+  intro ho
+  have hx : sp1.isExplicit = true := by
+    rcases List.mem_append.mp h1 with h | h
+    · exact mem_explicitSingles_isExplicit h
+    · obtain ⟨c, d, q, nw, -, -, -, rfl⟩ := mem_explicitPairs_shape h
+      rfl
+  have hl := List.all_eq_true.mp letterSpellings_not_explicit sp2 h2
+  have : sp1 = sp2 :=
+    opvar_injective_explicit sp1 sp2
+      (by rw [List.append_assoc]; exact List.mem_append_right _ h1)
+      (List.mem_append_left _ (List.mem_append_left _ h2)) b1 b2 e1 e2 ho
+  rw [this] at hx
+  rw [hx] at hl
+  cases hl
+
+-- kernel-checked examples for the pairs
+example : (bindingSpec (.explicit 'R' "1" (some "0") false)).map (fun b => (b.ty.signed, b.ty.width, b.opvar, b.slot.render, slotNewFlag b)) =
+    some (true, 64, "R1_0_op", "EXPLICIT2OP(0, HEX_REG_CLASS_DOUBLE_REGS, false)", some false) := by decide +kernel
+example : (bindingSpec (.explicit 'C' "9" (some "8") true)).map (fun b => (b.ty.width, b.opvar, b.slot.render, slotNewFlag b, b.kind)) =
+    some (64, "C9_8_new_op", "EXPLICIT2OP(8, HEX_REG_CLASS_CTR_REGS64, true)", some true, .explicitNew) := by decide +kernel
+example : (bindingSpec (.explicit 'R' "31" (some "30") false)).map (fun b => (b.ty.width, b.opvar, b.slot.render)) =
+    some (64, "R31_30_op", "EXPLICIT2OP(30, HEX_REG_CLASS_DOUBLE_REGS, false)") := by decide +kernel
+example : (bindingSpec (.explicit 'S' "5" (some "4") false)).map (fun b => b.slot.render) =
+    some "EXPLICIT2OP(4, HEX_REG_CLASS_SYS_REGS64, false)" := by decide +kernel
+example : bindingSpec (.explicit 'R' "2" (some "1") false) = none := by decide +kernel       -- odd low
+example : bindingSpec (.explicit 'R' "3" (some "0") false) = none := by decide +kernel       -- not consecutive
+example : bindingSpec (.explicit 'P' "1" (some "0") false) = none := by decide +kernel       -- predicates have no pairs
+example : bindingSpec (.explicit 'M' "1" (some "0") true) = none := by decide +kernel        -- modifier registers have no pairs
+example : bindingSpec (.explicit 'V' "1" (some "0") false) = none := by decide +kernel       -- vector registers: no scalar width
+example : Spelling.explicit 'R' "1" (some "0") false ∈ explicitPairs ∧ Spelling.explicit 'C' "9" (some "8") true ∈ explicitPairs := by
+  decide +kernel
+example : decodeOpvar "C9_8_new_op" = some (.explicit 'C' "9" (some "8") true) ∧ decodeOpvar "Rss_op" = some (.letter 'R' "ss" false) ∧
+    decodeOpvar "R31_new_op" = some (.explicit 'R' "31" none true) := by decide +kernel
+
 end Rzil.Operands
